@@ -31,8 +31,44 @@ PURE_FUNCS = {
 }
 
 
+class _GetToSubscript(ast.NodeTransformer):
+    """X.get(k) / X.get(k, <empty display>) -> X[k] (reading a table row
+    through .get names the same row; the empty default only matters when the
+    row is absent)."""
+
+    def visit_Call(self, node):
+        node = self.generic_visit(node)
+        if isinstance(node.func, ast.Attribute) and node.func.attr == 'get' \
+                and not node.keywords and 1 <= len(node.args) <= 2:
+            d = node.args[1] if len(node.args) == 2 else None
+            empty = d is None or (isinstance(d, ast.Dict) and not d.keys) or (
+                isinstance(d, (ast.Tuple, ast.List, ast.Set))
+                and not d.elts) or (isinstance(d, ast.Call) and dotted(
+                    d.func) in ('dict', 'set', 'tuple', 'list',
+                                'frozenset') and not d.args) or (
+                    isinstance(d, ast.Constant) and d.value is None)
+            if empty and dotted(node.func.value) is not None:
+                return ast.Subscript(node.func.value, node.args[0],
+                                     ast.Load())
+        return node
+
+
+def unget(node_or_text):
+    """Normalise table reads through .get to subscripts (text in, text out;
+    node in, node out)."""
+    import copy as _copy
+    if isinstance(node_or_text, str):
+        try:
+            n = ast.parse(node_or_text, mode='eval').body
+        except SyntaxError:
+            return node_or_text
+        return norm(_GetToSubscript().visit(n))
+    return _GetToSubscript().visit(_copy.deepcopy(node_or_text))
+
+
 def chain(node):
-    """self.F[k1][k2] -> ('self.F', [k1, k2]); setdefault(k, {}) counts as [k].
+    """self.F[k1][k2] -> ('self.F', [k1, k2]); setdefault(k, {}) and
+    get(k[, <empty>]) count as [k].
     Returns (None, None) if the base is not an attribute chain."""
     keys = []
     n = node
@@ -42,6 +78,11 @@ def chain(node):
             n = n.value
         elif isinstance(n, ast.Call) and isinstance(n.func, ast.Attribute) \
                 and n.func.attr == 'setdefault' and len(n.args) == 2:
+            keys.append(n.args[0])
+            n = n.func.value
+        elif isinstance(n, ast.Call) and isinstance(n.func, ast.Attribute) \
+                and n.func.attr == 'get' and 1 <= len(n.args) <= 2 \
+                and dotted(n.func.value) is not None:
             keys.append(n.args[0])
             n = n.func.value
         else:
@@ -193,8 +234,9 @@ class LifeDomain(Domain):
         st.trace.append(ev)
         k = ev.kind
         if k == 'cond':
-            st.data['conds'].append((ev.sym.text, ev.sym.node, ev.extra,
-                                     ev.sym.stamp))
+            vers = frozenset(st.versions.items())
+            st.data['conds'].append((unget(ev.sym.text), ev.sym.node,
+                                     ev.extra, ev.sym.stamp | vers))
         elif k == 'call' and ev.func is None:
             self._call(st, ev)
         elif k == 'store':
@@ -228,8 +270,7 @@ class LifeDomain(Domain):
         if tbl == 'self._entities':
             if (e, T) in st.data['vacated'] or e in st.data['rows_gone']:
                 return True
-            want_false = {f'{T} in {tbl}.get({e}, {{}})', f'{T} in {tbl}[{e}]',
-                          f'{e} in {tbl}'}
+            want_false = {f'{T} in {tbl}[{e}]', f'{e} in {tbl}'}
         else:
             if T in st.data['vacated']:
                 return True
@@ -433,6 +474,20 @@ class LifeDomain(Domain):
                 return
         st.bump('self._dispatch_enabled')
 
+    def _cond_truth(self, st, text):
+        """Truth of the latest decision of `text` (normalised), if the tables
+        it reads were not mutated since it was evaluated; else None."""
+        text = unget(text)
+        for t, node, truth, stamp in reversed(st.data['conds']):
+            if t != text:
+                continue
+            d = dict(stamp)     # includes the versions at evaluation time
+            for tbl in TABLES:
+                if tbl in text and d.get(tbl, 0) != st.versions.get(tbl, 0):
+                    return None
+            return truth
+        return None
+
     def _apply_summary(self, st, summ, cn, fn, ev):
         mapping = summ.bind(cn)
         if mapping is None:
@@ -444,12 +499,10 @@ class LifeDomain(Domain):
             ok = True
             for text, truth in ex['entry']:
                 t2 = instantiate(text, mapping)
-                m = st.memo.get(t2)
-                if m is not None and all(st.versions.get(f, 0) == v
-                                         for f, v in m[1]):
-                    if m[0] != truth:
-                        ok = False
-                        break
+                known = self._cond_truth(st, t2)
+                if known is not None and known != truth:
+                    ok = False
+                    break
             if ok:
                 live.append(ex)
         if live:
@@ -476,9 +529,7 @@ class LifeDomain(Domain):
         if guard is not None:
             guarded = False
             for g in guard:
-                m = st.memo.get(g)
-                if m is not None and m[0] is True and all(
-                        st.versions.get(f, 0) == v for f, v in m[1]):
+                if self._cond_truth(st, g) is True:
                     guarded = True
             st.data['replace_calls'].append((slot, guarded, ev.node, fn))
         for t in summ.tables:
@@ -805,9 +856,9 @@ def analyse_world(program, rep, prop, tables, rules_prefix):
                 summ.relays = True
             entry = []
             for text, node, truth, stamp in st.data['conds']:
-                if stamp and all(v == 0 for _, v in stamp) and all(
-                        not f.endswith(('@0', '@1', '@2', '@3', '@4'))
-                        for f, _ in stamp):
+                tv = [v for f, v in stamp if f in TABLES]
+                if all(v == 0 for v in tv) and any(t in text
+                                                   for t in TABLES):
                     entry.append((text, truth))
             summ.exits.append({'entry': entry,
                                'vacated': set(st.data['vacated']),
